@@ -51,7 +51,7 @@ func genText(g G, kind string, allowEmpty bool) string {
 	return b.String()
 }
 
-var c16Replies = []string{"handshake", "handshake-long", "err-conflict", "err-host-unknown", "err-not-authorized", "unexpected-message", "unexpected-features", "malformed", "close", "truncated-handshake", "mismatched-tags", "undefined-entity"}
+var c16Replies = []string{"handshake", "handshake-long", "err-conflict", "err-host-unknown", "err-not-authorized", "unexpected-message", "unexpected-features", "malformed", "close", "truncated-handshake", "mismatched-tags", "undefined-entity", "handshake-client-ns", "handshake-prefixed-client-ns", "handshake-server-ns", "handshake-sasl-ns"}
 
 func init() {
 	register(&PropDef{
@@ -69,7 +69,7 @@ func runC16(e *Engine, g G, o RunOpt) RunInfo {
 	n := 1 + g.Weighted("history", 6, 3, 1)
 	for i := 0; i < n; i++ {
 		c := c16Conn{StreamID: genText(g, "sid", true)}
-		c.Reply = c16Replies[g.Weighted("reply", 8, 2, 2, 2, 2, 2, 2, 2, 2, 2, 2, 2)]
+		c.Reply = c16Replies[g.Weighted("reply", 8, 2, 2, 2, 2, 2, 2, 2, 2, 2, 2, 2, 2, 1, 1, 1)]
 		c.Header = []int{HdrOK, HdrOKDecl}[g.N("hdr", 2)]
 		c.DelayMs = []int{0, 0, 20, 3000}[g.N("delay", 4)]
 		c.Stanzas = g.Range("stanzas", 0, 4)
@@ -131,6 +131,15 @@ func runC16(e *Engine, g G, o RunOpt) RunInfo {
 				return "<handshake><a></b></handshake>"
 			case "undefined-entity":
 				return "<handshake>&nosuchentity;</handshake>"
+			case "handshake-client-ns":
+				// an element called handshake that is not the XEP-0114 one
+				return "<handshake xmlns='jabber:client'/>"
+			case "handshake-prefixed-client-ns":
+				return "<c:handshake xmlns:c='jabber:client'></c:handshake>"
+			case "handshake-server-ns":
+				return "<handshake xmlns='jabber:server'/>"
+			case "handshake-sasl-ns":
+				return "<handshake xmlns='" + nsSASL + "'/>"
 			}
 			return "" // close
 		}
